@@ -52,7 +52,7 @@ def place(deps, rnd):
     return {"k": "t", "c": group(list(deps), 0), "d": NODEP}
 
 
-def build(x, H, alias=None):
+def build(x, H, alias=None, display=False):
     """alias (gamma option): equal abstract dependencies are ONE object placed at several positions
     (a dependency shared by several components) instead of equal-but-distinct objects."""
     if x["k"] == "d":
@@ -66,7 +66,21 @@ def build(x, H, alias=None):
         return o
     if x["k"] == "x":
         return "leaf"
-    return H.tags.div(*[build(c, H, alias) for c in x["c"]])
+    kids = [build(c, H, alias, display) for c in x["c"]]
+    if display:
+        # gamma option: the children are DISPLAYED one by one inside a `with tag:` block
+        import sys
+        t = H.tags.div()
+        saved = sys.displayhook
+        sys.displayhook = lambda value: None
+        try:
+            with t:
+                for k_ in kids:
+                    sys.displayhook(k_)
+        finally:
+            sys.displayhook = saved
+        return t
+    return H.tags.div(*kids)
 
 
 def proj(deps):
@@ -130,13 +144,14 @@ class C10(Prop):
             for _ in range(rnd.randint(0, 12)):
                 ver = [rnd.choice([0, 1, 2, 9, 10, 11]) for _ in range(rnd.randint(1, 4))]
                 deps.append({"name": rnd.choice(names), "ver": ver, "pl": rnd.choice("pqr")})
-            gens.append({"kind": "resolve", "tree": place(deps, rnd), "alias": rnd.random() < 0.4, "doc": rnd.random() < 0.4})
+            gens.append({"kind": "resolve", "tree": place(deps, rnd), "alias": rnd.random() < 0.4, "doc": rnd.random() < 0.4,
+                         "display": rnd.random() < 0.25})
         return gens
 
     def execute(self, g):
         import htmltools as H
         if g["kind"] == "resolve":
-            t = build(g["tree"], H, {} if g.get("alias") else None)
+            t = build(g["tree"], H, {} if g.get("alias") else None, display=g.get("display", False))
             got = t.get_dependencies()
             # the same forest as the content of a document (the only tag among the top-level items - if there is exactly
             # one - being the caller's own <body>): what is reported does not depend on where the objects sit
